@@ -128,15 +128,16 @@ fn sw_ctx<P: SWCurveConfig>(name: &str) -> SwCtx<P> {
     SwCtx { g, t2, cofactor_gt1 }
 }
 
-fn sw_point<P: SWCurveConfig>(cx: &SwCtx<P>, t: &mut Tape<'_>, o: &mut Obs) -> Sw<P::BaseField> {
+/// a point and whether it is known, by construction, to lie in the prime-order subgroup (a multiple of G)
+fn sw_point<P: SWCurveConfig>(cx: &SwCtx<P>, t: &mut Tape<'_>, o: &mut Obs) -> (Sw<P::BaseField>, bool) {
     let a = P::COEFF_A;
-    match t.weighted(&[2, 2, 3, 3, 5, 1]) {
-        0 => cx.g,
-        1 => Sw::Inf,
-        2 => sw_mul(&a, &cx.g, &BigUint::from(1 + t.below(16))),
+    let pt = match t.weighted(&[2, 2, 3, 3, 5, 1]) {
+        0 => return (cx.g, true),
+        1 => return (Sw::Inf, true),
+        2 => return (sw_mul(&a, &cx.g, &BigUint::from(1 + t.below(16))), true),
         3 => {
             o.class("k*G with 64-bit k");
-            sw_mul(&a, &cx.g, &BigUint::from(t.u64()))
+            return (sw_mul(&a, &cx.g, &BigUint::from(t.u64())), true);
         },
         4 => {
             let x = felt::<P::BaseField>(t);
@@ -157,24 +158,25 @@ fn sw_point<P: SWCurveConfig>(cx: &SwCtx<P>, t: &mut Tape<'_>, o: &mut Obs) -> S
             },
             None => cx.g,
         },
-    }
+    };
+    (pt, pt == cx.g || !cx.cofactor_gt1)
 }
 
 fn sw_shipped<P: SWCurveConfig>(name: &'static str, cx: &SwCtx<P>, t: &mut Tape<'_>, o: &mut Obs) -> R {
     let a = P::COEFF_A;
-    let p = sw_point(cx, t, o);
-    let q = match t.weighted(&[5, 2, 2, 1, 1, 1]) {
+    let (p, psub) = sw_point(cx, t, o);
+    let (q, qsub) = match t.weighted(&[5, 2, 2, 1, 1, 1]) {
         0 => sw_point(cx, t, o),
-        1 => p,
-        2 => sw_neg(&p),
-        3 => sw_add(&a, &p, &p),
-        4 => Sw::Inf,
+        1 => (p, psub),
+        2 => (sw_neg(&p), psub),
+        3 => (sw_add(&a, &p, &p), psub),
+        4 => (Sw::Inf, true),
         _ => match cx.t2 {
-            Some(t2) => sw_add(&a, &p, &t2),
-            None => sw_neg(&sw_add(&a, &p, &p)),
+            Some(t2) => (sw_add(&a, &p, &t2), false),
+            None => (sw_neg(&sw_add(&a, &p, &p)), psub),
         },
     };
-    let (p, q) = if t.chance(1, 4) { (q, p) } else { (p, q) };
+    let (p, q, psub) = if t.chance(1, 4) { (q, p, qsub) } else { (p, q, psub) };
     let c = Case::<SwM<P>> {
         p,
         q,
@@ -184,7 +186,10 @@ fn sw_shipped<P: SWCurveConfig>(name: &'static str, cx: &SwCtx<P>, t: &mut Tape<
         jp: junk(t),
         jq: junk(t),
         sel: t.u64(),
+        try_new: false,
     };
+    // the checked constructors cost a multiplication by r: one case in four on the large curves
+    let c = Case { try_new: psub && (c.sel >> 40) & 3 == 0, ..c };
     o.show(|| format!("{}: P={:?} Q={:?} lambda={:?} mu={:?} nu={:?} identity-coords {:?} {:?} sel={:#x}", name, c.p, c.q, c.lam, c.mu, c.nu, c.jp, c.jq, c.sel));
     classify(&c, o)?;
     sw_battery::<P>(&c, o)
@@ -254,17 +259,18 @@ fn te_from_y<P: TECurveConfig>(y0: P::BaseField, greatest: bool) -> Option<Te<P:
     None
 }
 
-fn te_point<P: TECurveConfig>(cx: &TeCtx<P>, t: &mut Tape<'_>, o: &mut Obs) -> Te<P::BaseField> {
+/// a point and whether it is known, by construction, to be a multiple of the generator
+fn te_point<P: TECurveConfig>(cx: &TeCtx<P>, t: &mut Tape<'_>, o: &mut Obs) -> (Te<P::BaseField>, bool) {
     let (a, d) = (P::COEFF_A, P::COEFF_D);
     let mul = |k: BigUint| te_mul(&a, &d, &cx.g, &k).expect("multiples of the generator are never exceptional");
     let w: [u32; 6] = if cx.complete { [2, 2, 3, 3, 5, 2] } else { [2, 2, 4, 4, 0, 0] };
-    match t.weighted(&w) {
-        0 => cx.g,
-        1 => te_identity(),
-        2 => mul(BigUint::from(1 + t.below(16))),
+    let pt = match t.weighted(&w) {
+        0 => return (cx.g, true),
+        1 => return (te_identity(), true),
+        2 => return (mul(BigUint::from(1 + t.below(16))), true),
         3 => {
             o.class("k*G with 64-bit k");
-            mul(BigUint::from(t.u64()))
+            return (mul(BigUint::from(t.u64())), true);
         },
         4 => {
             let y = felt::<P::BaseField>(t);
@@ -285,28 +291,29 @@ fn te_point<P: TECurveConfig>(cx: &TeCtx<P>, t: &mut Tape<'_>, o: &mut Obs) -> T
                 cx.small[t.idx(cx.small.len())]
             }
         },
-    }
+    };
+    (pt, pt == cx.g)
 }
 
 fn te_shipped<P: TECurveConfig>(name: &'static str, cx: &TeCtx<P>, t: &mut Tape<'_>, o: &mut Obs) -> R {
     let (a, d) = (P::COEFF_A, P::COEFF_D);
-    let p = te_point(cx, t, o);
+    let (p, psub) = te_point(cx, t, o);
     let add = |x: &Te<P::BaseField>, y: &Te<P::BaseField>| te_add(&a, &d, x, y).expect("inside the stated domain the law has no exceptional pair");
-    let q = match t.weighted(&[5, 2, 2, 1, 1, 1]) {
+    let (q, qsub) = match t.weighted(&[5, 2, 2, 1, 1, 1]) {
         0 => te_point(cx, t, o),
-        1 => p,
-        2 => te_neg(&p),
-        3 => add(&p, &p),
-        4 => te_identity(),
+        1 => (p, psub),
+        2 => (te_neg(&p), psub),
+        3 => (add(&p, &p), psub),
+        4 => (te_identity(), true),
         _ => {
             if cx.small.is_empty() {
-                te_neg(&add(&p, &p))
+                (te_neg(&add(&p, &p)), psub)
             } else {
-                add(&p, &cx.small[t.idx(cx.small.len())])
+                (add(&p, &cx.small[t.idx(cx.small.len())]), false)
             }
         },
     };
-    let (p, q) = if t.chance(1, 4) { (q, p) } else { (p, q) };
+    let (p, q, psub) = if t.chance(1, 4) { (q, p, qsub) } else { (p, q, psub) };
     let c = Case::<TeM<P>> {
         p,
         q,
@@ -316,7 +323,9 @@ fn te_shipped<P: TECurveConfig>(name: &'static str, cx: &TeCtx<P>, t: &mut Tape<
         jp: (P::BaseField::one(), P::BaseField::one()),
         jq: (P::BaseField::one(), P::BaseField::one()),
         sel: t.u64(),
+        try_new: false,
     };
+    let c = Case { try_new: psub && (c.sel >> 40) & 3 == 0, ..c };
     o.show(|| format!("{} ({}): P={:?} Q={:?} lambda={:?} mu={:?} nu={:?} sel={:#x}", name, if cx.complete { "complete" } else { "subgroup only" }, c.p, c.q, c.lam, c.mu, c.nu, c.sel));
     o.class(if cx.complete { "te complete curve" } else { "te incomplete curve (subgroup)" });
     classify(&c, o)?;
